@@ -144,15 +144,11 @@ def run_property(pid, spec, tier, seed, t0):
             per_kind[r.name] = r.summary
             tot.merge(r)
 
-    if tot.disagreements:
-        d = tot.disagreements[0]
-        broken.append("correspondence %s: model and implementation differ on %d case(s), first: %s"
-                      % (d["kind"], len(tot.disagreements), d["session"][-1][:160]))
-
     # ---- a timeout / resource verdict alone is never reported: the same session must fail again, three times,
     #      in isolation, with a 10x longer watchdog (a loaded machine must not raise a false alarm)
     transient = 0
     confirmed = []
+    dropped = set()
     for f in tot.oracle_fail:
         v = f.get("verdict", "")
         if f.get("kind", "").startswith("e2e") or not (v.startswith("fail:hang") or v.startswith("fail:process died") or v.startswith("fail:alloc")):
@@ -170,7 +166,15 @@ def run_property(pid, spec, tier, seed, t0):
             confirmed.append(f)
         else:
             transient += 1
+            dropped.add((f["kind"], f["session"][-1]))
     tot.oracle_fail = confirmed
+    # the model naturally differs from an implementation line that is only a timeout artefact: drop those too
+    tot.disagreements = [d for d in tot.disagreements if (d["kind"], d["session"][-1]) not in dropped]
+
+    if tot.disagreements:
+        d = tot.disagreements[0]
+        broken.append("correspondence %s: model and implementation differ on %d case(s), first: %s"
+                      % (d["kind"], len(tot.disagreements), d["session"][-1][:160]))
 
     # ---- decide
     fails = list(tot.oracle_fail)
